@@ -230,4 +230,28 @@ def streams(tier, rng, P, only=None, cases=None):
         return None
     s6 = Stream("jpwords", cases if (cases and only == "jpwords") else mk_jp(), lambda c, st, f: [], jp_judge, lambda c, i, m: i[1].get("bin1") if i[0] == "ok" else None,
                 "controller words of the Japanese notation followed by operator-like words")
-    return [s for s in (s1, s2, s3, s4, s5, s6) if only in (None, s.name)]
+    # ---- every spelling of a command word (`PlayFrom` / `PLAY_FROM`, `Tempo` / `TEMPO` / `T`-less forms of the table …) with the same argument
+    #      in the same place gives the same file (the search side of C15_spellings_agree)
+    def mk_sp():
+        groups = {}
+        for r in rows:
+            w = r["name"].upper().replace("SYSTEM.", "").replace("_", "")
+            groups.setdefault(w, []).append(r["name"])
+        out = []
+        for w, names in sorted(groups.items()):
+            # (words whose name proper begins with a lower-case letter — `vAdd`, `qAdd`, `q2Add` — are not read through the table: a lower-case
+            #  letter starts a one-letter command; they write no message and are left out)
+            if any(n.replace("System.", "")[:1].islower() for n in names): continue
+            for other in names[1:]:
+                for tmpl in ("l4 c d %s(2) e f", "l4 c d %s(1:3:0) e f"):
+                    a, b = tmpl % names[0], tmpl % other
+                    out.append(dict(req="compile2 %s %s" % (hx(a), hx(b)), src=a, src2=b, show="%s   vs   %s" % (a, b), key="sp-%s-%s" % (other, tmpl[9:12])))
+        return out
+    def sp_judge(c, impl, m):
+        st, f = impl
+        if st != "ok": return None      # (a word that cannot stand there fails the same way under every spelling; C07 is about not failing)
+        if f["bin1"] != f["bin2"]: return ("violation", "two spellings of one command word give different files: %s vs %s" % (c["src"], c["src2"]))
+        return None
+    s7 = Stream("spellings", cases if (cases and only == "spellings") else mk_sp(), lambda c, st, f: [], sp_judge, lambda c, i, m: i[1].get("bin1") if i[0] == "ok" else None,
+                "the spellings of each command word, same argument, same place")
+    return [s for s in (s1, s2, s3, s4, s5, s6, s7) if only in (None, s.name)]
